@@ -322,7 +322,14 @@ func processNormalMappingData(mapping Mapping, remainder []byte, size *Integer, 
 	map_bytes := remainder[:size.Int()]
 	remainder = remainder[size.Int():]
 
-	vals, _, mappingValueErrs := ReadMappingValues(map_bytes, *size)
+	vals, unparsed, mappingValueErrs := ReadMappingValues(map_bytes, *size)
+	if len(mappingValueErrs) == 0 && len(unparsed) > 0 {
+		// The pairs must tile the declared size exactly: bytes inside the
+		// mapping that are not part of any pair would otherwise be skipped
+		// here and dropped on re-serialisation.
+		mappingValueErrs = append(mappingValueErrs, oops.Errorf(
+			"mapping format violation, %d trailing bytes inside the mapping do not form a key/value pair", len(unparsed)))
+	}
 	err = append(err, mappingValueErrs...)
 	mapping.vals = vals
 
